@@ -171,6 +171,21 @@ def export_record(p, sol):
             ex["csv"] = _rows_from_table(list(csv.DictReader(f)))
         df = sol.to_df()
         ex["df"] = _rows_from_table(df.to_dict(orient="records"))
+        # an export is a value: whatever the caller does to the returned frame, the next export shows the solution again
+        try:
+            for col in list(df.columns):
+                if str(df[col].dtype).startswith(("int", "float")):
+                    df[col] += 100
+            df.drop(columns=[df.columns[-1]], inplace=True)
+            df.sort_values(by=df.columns[0], ascending=False, inplace=True)
+        except Exception:
+            pass
+        again = _rows_from_table(sol.to_df().to_dict(orient="records"))
+        path2 = os.path.join(d, "s2.csv")
+        sol.to_csv(path2)
+        with open(path2, newline="") as f:
+            csv_again = _rows_from_table(list(csv.DictReader(f)))
+        ex["export_again_diff"] = [k for k, a, b_ in (("df", ex["df"], again), ("csv", ex["csv"], csv_again)) if a != b_]
         # Excel
         xp = os.path.join(d, "s.xlsx")
         sol.to_excel_file(xp)
